@@ -36,6 +36,10 @@ func (m *patternMatcher) find() []Capture {
 
 func (m *patternMatcher) findFromStart() []Capture {
 	if m.startAnchor {
+		if m.si > len(m.s) {
+			// Same as find(): there is no match starting beyond the end of s.
+			return nil
+		}
 		return m.matchToEnd()
 	}
 	return m.find()
